@@ -3,14 +3,34 @@
 //
 // input:  C <id> <D> <shapeA..> <nA> <valsA..> <shapeB..> <nB> <valsB..>
 // output: {"id":..,"res":[[ka,kb,"eq ne lt le gt ge (a?b) then (b?a) as 12 chars 0/1/x"],...]}
+// build variants: default element int / other element long;  -DVERIF_CMP_DOUBLE: element double / other float, where the
+// abstract value 2 stands for -0.0 (equal to 0 = +0.0) and 3 for a NaN (equal to nothing, itself included)
+#ifdef VERIF_CMP_DOUBLE
+#define VERIF_ELEM double
+using other_t = float;
+#else
 #define VERIF_ELEM int
+using other_t = long;
+#endif
 #include "viewprog.hpp"
+#include <cmath>
+#include <limits>
+using E = VERIF_ELEM;
+template<class X> X conv(long v) {
+#ifdef VERIF_CMP_DOUBLE
+	if(v == 2) { return static_cast<X>(-0.0); }
+	if(v == 3) { return std::numeric_limits<X>::quiet_NaN(); }
+#endif
+	return static_cast<X>(v);
+}
 
 #include <memory>
 
 // kinds of operand
-enum kind_t { K_ARRAY = 0, K_CONST = 1, K_REF = 2, K_ROTVIEW = 3, K_PADVIEW = 4, K_OTHER = 5, K_NKINDS = 6 };
-static char const* kind_name[] = {"array", "const_array", "array_ref", "rotated_view", "padded_subblock", "array_of_long"};
+// (padded sub-blocks exist for every shape, also without elements, and report their extents exactly;
+//  "_long": the other element type; "const_": a read-only view over a const pointer, as obtained from a const array)
+enum kind_t { K_ARRAY = 0, K_CONST = 1, K_REF = 2, K_ROTVIEW = 3, K_PADVIEW = 4, K_OTHER = 5, K_PADOTHER = 6, K_CPAD = 7, K_NKINDS = 8 };
+static char const* kind_name[] = {"array", "const_array", "array_ref", "rotated_view", "padded_subblock", "array_of_long", "padded_subblock_long", "const_padded_subblock"};
 
 template<int D, std::size_t... K> auto exts(std::vector<long> const& sh, std::index_sequence<K...> /*u*/) { return multi::extensions_t<D>{multi::iextension(0, sh[K])...}; }
 template<int D> auto exts(std::vector<long> const& sh) { return exts<D>(sh, std::make_index_sequence<D>{}); }
@@ -18,51 +38,63 @@ template<int D> auto exts(std::vector<long> const& sh) { return exts<D>(sh, std:
 template<class V> void fill_view(V&& v, std::vector<long> const& vals, std::size_t& k) {
 	constexpr int DD = std::decay_t<V>::rank_v;
 	for(auto i : v.extension()) {
-		if constexpr(DD == 1) { v[i] = static_cast<typename std::decay_t<V>::element_type>(vals[k++]); } else { fill_view(v[i], vals, k); }
+		if constexpr(DD == 1) { v[i] = conv<typename std::decay_t<V>::element_type>(vals[k++]); } else { fill_view(v[i], vals, k); }
 	}
 }
 
 template<int D> struct operand {
 	std::vector<long> shape, vals;
-	multi::array<int, D> arr;           // K_ARRAY, K_CONST
-	std::vector<int> buf;               // K_REF
-	std::unique_ptr<multi::array_ref<int, D>> ref;
-	multi::array<int, D> rot_backing;   // K_ROTVIEW
+	multi::array<E, D> arr;           // K_ARRAY, K_CONST
+	std::vector<E> buf;               // K_REF
+	std::unique_ptr<multi::array_ref<E, D>> ref;
+	multi::array<E, D> rot_backing;   // K_ROTVIEW
 	std::unique_ptr<view_t<D>> rot;
-	multi::array<int, D> pad_backing;   // K_PADVIEW
+	multi::array<E, D> pad_backing;   // K_PADVIEW, K_CPAD
 	std::unique_ptr<view_t<D>> pad;
-	multi::array<long, D> other;        // K_OTHER
-	bool views_ok = false;
+	multi::array<other_t, D> other;        // K_OTHER
+	multi::array<other_t, D> pad_other_backing;   // K_PADOTHER
+	bool views_ok = false;   // rotated view (needs elements)
+	bool pad_ok = false;
+
+	// the sub-block [1, 1+s) in every dimension of an array padded by one on every side
+	template<class A> static auto block_of(A& backing, std::vector<long> const& shape) {
+		return block_impl(backing, shape, std::make_index_sequence<D>{});
+	}
+	template<class A, std::size_t... K> static auto block_impl(A& backing, std::vector<long> const& shape, std::index_sequence<K...> /*u*/) {
+		return backing(multi::irange(1, 1 + shape[K])...);
+	}
 
 	operand(std::vector<long> sh, std::vector<long> vs) : shape(std::move(sh)), vals(std::move(vs)) {
 		std::size_t k = 0;
-		arr = multi::array<int, D>(exts<D>(shape));
+		arr = multi::array<E, D>(exts<D>(shape));
 		if(!vals.empty()) { fill_view(arr(), vals, k); }
-		buf.assign(vals.begin(), vals.end());
+		for(auto v : vals) { buf.push_back(conv<E>(v)); }
 		if(buf.empty()) { buf.push_back(0); }
-		ref = std::make_unique<multi::array_ref<int, D>>(buf.data(), exts<D>(shape));
-		other = multi::array<long, D>(exts<D>(shape));
+		ref = std::make_unique<multi::array_ref<E, D>>(buf.data(), exts<D>(shape));
+		other = multi::array<other_t, D>(exts<D>(shape));
 		k = 0;
 		if(!vals.empty()) { fill_view(other(), vals, k); }
+		// a sub-block of a larger array (padding on both sides of every dimension); exists for shapes without elements too
+		std::vector<long> psh(shape);
+		for(auto& s : psh) { s += 2; }
+		pad_backing = multi::array<E, D>(exts<D>(psh), conv<E>(-9));
+		pad_other_backing = multi::array<other_t, D>(exts<D>(psh), conv<other_t>(-9));
+		{
+			auto&& blk = block_of(pad_backing, shape);
+			pad = std::make_unique<view_t<D>>(blk.layout(), const_cast<E*>(blk.base()));
+			k = 0; if(!vals.empty()) { fill_view(*pad, vals, k); }
+			auto&& oblk = block_of(pad_other_backing, shape);
+			k = 0; if(!vals.empty()) { fill_view(oblk, vals, k); }
+			pad_ok = true;
+		}
 		if(!vals.empty()) {
 			// a view whose logical shape is `shape` but whose memory order is rotated
 			std::vector<long> ush(shape);
 			if(D > 1) { ush.insert(ush.begin(), ush.back()); ush.pop_back(); } else { ush[0] *= 2; }
-			rot_backing = multi::array<int, D>(exts<D>(ush), -7);
+			rot_backing = multi::array<E, D>(exts<D>(ush), conv<E>(-7));
 			if constexpr(D > 1) { rot = std::make_unique<view_t<D>>(norm(rot_backing.rotated())); }
 			else { rot = std::make_unique<view_t<D>>(norm(rot_backing.strided(2))); }
 			k = 0; fill_view(*rot, vals, k);
-			// a sub-block of a larger array (padding on both sides of every dimension)
-			std::vector<long> psh(shape);
-			for(auto& s : psh) { s += 2; }
-			pad_backing = multi::array<int, D>(exts<D>(psh), -9);
-			op_t o; o.name = "paren";
-			for(auto s : shape) { o.a.push_back(1); o.a.push_back(1); o.a.push_back(1 + s); }
-			any_view out; view_t<D> base = norm(pad_backing());
-			apply_op<D>(base, o, out);
-			auto* p = std::get_if<view_t<D>>(&out);
-			pad = std::make_unique<view_t<D>>(p->layout(), const_cast<int*>(p->base()));
-			k = 0; fill_view(*pad, vals, k);
 			views_ok = true;
 		}
 	}
@@ -100,11 +132,13 @@ template<class X, class Y> std::string six(X const& x, Y const& y) {
 template<int D, class F> void with_kind(operand<D>& o, int k, F&& f) {
 	switch(k) {
 		case K_ARRAY: f(o.arr); break;
-		case K_CONST: f(static_cast<multi::array<int, D> const&>(o.arr)); break;
+		case K_CONST: f(static_cast<multi::array<E, D> const&>(o.arr)); break;
 		case K_REF: f(*o.ref); break;
 		case K_ROTVIEW: f(*o.rot); break;
 		case K_PADVIEW: f(*o.pad); break;
 		case K_OTHER: f(o.other); break;
+		case K_PADOTHER: { auto&& v = operand<D>::block_of(o.pad_other_backing, o.shape); f(v); } break;
+		case K_CPAD: { auto&& v = operand<D>::block_of(std::as_const(o.pad_backing), o.shape); f(v); } break;
 		default: break;
 	}
 }
@@ -115,8 +149,8 @@ template<int D> void run_pair(long id, std::vector<long> const& sa, std::vector<
 	operand<D> A(sa, va), Bo(sb, vb);
 	bool first = true;
 	for(auto [ka, kb] : combos) {
-		if((ka == K_ROTVIEW || ka == K_PADVIEW) && !A.views_ok) { continue; }
-		if((kb == K_ROTVIEW || kb == K_PADVIEW) && !Bo.views_ok) { continue; }
+		if(ka == K_ROTVIEW && !A.views_ok) { continue; }
+		if(kb == K_ROTVIEW && !Bo.views_ok) { continue; }
 		std::string ab, ba;
 		with_kind<D>(A, ka, [&](auto const& x) {
 			with_kind<D>(Bo, kb, [&](auto const& y) {
@@ -141,8 +175,9 @@ template<int D> void run_pair(long id, std::vector<long> const& sa, std::vector<
 				std::vector<long> full;
 				{ auto xs = v.sizes(); std::vector<long> tmp; tmpl_sizes<D>(xs, tmp); full = tmp; }
 				if(full != sb) { return; }
-				for(auto const& e : v.elements()) { vv.push_back(e); }
-				if(vv != vb) { return; }
+				{ std::vector<E> have, want; for(auto const& e : v.elements()) { have.push_back(e); } for(auto x : vb) { want.push_back(conv<E>(x)); }
+				  if(have.size() != want.size()) { return; }
+				  for(std::size_t q = 0; q != have.size(); ++q) { if(!(have[q] == want[q]) || std::signbit(static_cast<double>(have[q])) != std::signbit(static_cast<double>(want[q]))) { return; } } }
 				applicable = true;
 				ab = six(A.arr, v);
 				ba = six(v, A.arr);
@@ -160,8 +195,8 @@ template<int D> void run_pair(long id, std::vector<long> const& sa, std::vector<
 
 // zero-dimensional operands: one element each
 inline void run_pair0(long id, std::vector<long> const& va, std::vector<long> const& vb) {
-	multi::array<int, 0> a(static_cast<int>(va.at(0))), b(static_cast<int>(vb.at(0)));
-	multi::array<int, 0> const& ca = a;
+	multi::array<E, 0> a(conv<E>(va.at(0))), b(conv<E>(vb.at(0)));
+	multi::array<E, 0> const& ca = a;
 	std::ostringstream os;
 	os << "{\"id\":" << id << ",\"res\":[";
 	os << "[\"array\",\"array\",\"" << six(a, b) << six(b, a) << "\"],";
@@ -177,7 +212,7 @@ int main(int argc, char** argv) {
 	std::vector<std::pair<int, int>> combos;
 	bool lean = argc > 1 && std::string(argv[1]) == "lean";
 	for(int i = 0; i != K_NKINDS; ++i) { for(int j = 0; j != K_NKINDS; ++j) {
-		if(lean && !(i == j || i == K_ARRAY || j == K_ARRAY || (i == K_ROTVIEW && j == K_PADVIEW))) { continue; }
+		if(lean && !(i == j || i == K_ARRAY || j == K_ARRAY || (i == K_ROTVIEW && j == K_PADVIEW) || (i == K_PADVIEW && j == K_PADOTHER) || (i == K_CPAD && j == K_PADVIEW))) { continue; }
 		combos.emplace_back(i, j);
 	} }
 	std::string line;
